@@ -306,12 +306,38 @@ func ZZ_C11_calls() {
 		}
 		return 7, nil
 	})
+	// several results, some of them nil values of a type
+	e.Define("nilresults", func() ([]int64, map[string]int64, *zzBox, error) { return nil, nil, nil, nil })
+	e.Define("sliceerr", func(n int64) ([]int64, error) {
+		if n == 0 {
+			return nil, nil
+		}
+		return []int64{n}, nil
+	})
 	v, w := zz.Int64(), zz.Int64()
 	f := zz.Float64()
 	e.Define("V", v)
 	e.Define("W", w)
 	e.Define("F", f)
-	switch zz.Choose(13) {
+	switch zz.Choose(15) {
+	case 13:
+		r, err := Execute(e, nil, "nilresults()")
+		l, ok := r.([]interface{})
+		zz.Assert(err == nil && ok && len(l) == 4, "C11.results/four-results-as-list")
+		if ok && len(l) == 4 {
+			zz.Assert(l[0] != nil && reflect.TypeOf(l[0]) == reflect.TypeOf([]int64(nil)), "C11.results/nil-slice-result-keeps-its-type")
+			zz.Assert(l[1] != nil && reflect.TypeOf(l[1]) == reflect.TypeOf(map[string]int64(nil)), "C11.results/nil-map-result-keeps-its-type")
+			zz.Assert(l[2] == interface{}((*zzBox)(nil)) && l[2] != nil, "C11.results/nil-pointer-result-keeps-its-type")
+			zz.Assert(l[3] == nil, "C11.results/nil-error-result-is-nil")
+		}
+	case 14:
+		r, err := Execute(e, nil, "xs, err = sliceerr(0); [len(xs), err]")
+		l, ok := r.([]interface{})
+		zz.Assert(err == nil && ok && len(l) == 2 && l[0] == int64(0) && l[1] == nil, "C11.results/nil-slice-result-usable-as-slice")
+		r, err = Execute(e, nil, "xs, err = sliceerr(V); len(xs)")
+		zz.Assert(err == nil && (r == int64(1) || r == int64(0)), "C11.results/slice-result-usable-as-slice")
+		r, err = Execute(e, nil, "m, e2 = nilresults()[1], nil; m[\"k\"]")
+		zz.Assert(err == nil && r == nil, "C11.results/nil-map-result-reads-as-missing")
 	case 0:
 		_, err := Execute(e, nil, "fixed(V, W, V, F, \"s\", true)")
 		zz.Assert(err == nil && rec.n == 1, "C11.call/fixed/runs")
@@ -404,7 +430,46 @@ func ZZ_C11_identity_members() {
 	e.Define("id", func(x interface{}) interface{} { return x })
 	w := zz.Int64()
 	e.Define("W", w)
-	switch zz.Choose(13) {
+	// typed nil values are values of their type, not the untyped nil
+	e.Define("nilbox", (*zzBox)(nil))
+	e.Define("nilchan", (chan int64)(nil))
+	e.Define("nilfunc", (func(int64) int64)(nil))
+	e.Define("nilslice", []int64(nil))
+	e.Define("nilmap", map[string]int64(nil))
+	switch zz.Choose(19) {
+	case 13:
+		r, err := Execute(e, nil, "nilbox")
+		zz.Assert(err == nil && r == interface{}((*zzBox)(nil)) && r != nil, "C11.identity/typed-nil-pointer-keeps-its-type")
+		x, gerr := e.Get("nilbox")
+		zz.Assert(gerr == nil && x == interface{}((*zzBox)(nil)) && x != nil, "C11.identity/typed-nil-pointer-define-get")
+		zz.Assert(e.Set("nilbox", (*zzBox)(nil)) == nil, "C11.identity/typed-nil-pointer-set")
+		x, gerr = e.Get("nilbox")
+		zz.Assert(gerr == nil && x == interface{}((*zzBox)(nil)) && x != nil, "C11.identity/typed-nil-pointer-set-get")
+	case 14:
+		r, err := Execute(e, nil, "nilchan")
+		zz.Assert(err == nil && r == interface{}((chan int64)(nil)) && r != nil, "C11.identity/typed-nil-channel-keeps-its-type")
+		r, err = Execute(e, nil, "len(nilchan)")
+		zz.Assert(err == nil && r == int64(0), "C11.identity/len-of-nil-channel")
+	case 15:
+		r, err := Execute(e, nil, "nilfunc")
+		zz.Assert(err == nil && r != nil && reflect.TypeOf(r) == reflect.TypeOf((func(int64) int64)(nil)), "C11.identity/typed-nil-func-keeps-its-type")
+	case 16:
+		r, err := Execute(e, nil, "nilslice")
+		zz.Assert(err == nil && r != nil && reflect.TypeOf(r) == reflect.TypeOf([]int64(nil)), "C11.identity/typed-nil-slice-keeps-its-type")
+		r, err = Execute(e, nil, "id(nilslice)")
+		zz.Assert(err == nil && r != nil && reflect.TypeOf(r) == reflect.TypeOf([]int64(nil)), "C11.identity/typed-nil-slice-through-go-identity")
+		r, err = Execute(e, nil, "len(nilslice)")
+		zz.Assert(err == nil && r == int64(0), "C11.identity/len-of-nil-slice")
+	case 17:
+		r, err := Execute(e, nil, "nilmap")
+		zz.Assert(err == nil && r != nil && reflect.TypeOf(r) == reflect.TypeOf(map[string]int64(nil)), "C11.identity/typed-nil-map-keeps-its-type")
+		r, err = Execute(e, nil, "[nilmap][0]")
+		zz.Assert(err == nil && r != nil && reflect.TypeOf(r) == reflect.TypeOf(map[string]int64(nil)), "C11.identity/typed-nil-map-through-container")
+	case 18:
+		r, err := Execute(e, nil, "[nilbox, nilchan][0]")
+		zz.Assert(err == nil && r == interface{}((*zzBox)(nil)) && r != nil, "C11.identity/typed-nil-pointer-through-container")
+		r, err = Execute(e, nil, "id(nilbox)")
+		zz.Assert(err == nil && r == interface{}((*zzBox)(nil)) && r != nil, "C11.identity/typed-nil-pointer-through-go-identity")
 	case 0:
 		r, err := Execute(e, nil, "box")
 		zz.Assert(err == nil && r == interface{}(box), "C11.identity/define-get-same-pointer")
